@@ -1,0 +1,21 @@
+//go:build verif
+
+package shell_operator
+
+import (
+	"github.com/flant/shell-operator/pkg/task"
+	"github.com/flant/shell-operator/pkg/task/queue"
+)
+
+// VerifC18Setup loads the hooks of hooksDir the way Init does (event managers, hook managers,
+// `hook --config` of every hook), without a cluster.
+func (op *ShellOperator) VerifC18Setup(hooksDir, tempDir string) error {
+	op.SetupEventManagers()
+	op.setupHookManagers(hooksDir, tempDir)
+	return op.initHookManager()
+}
+
+// VerifC18HandleHookRun is the handler of queued HookRun tasks.
+func (op *ShellOperator) VerifC18HandleHookRun(t task.Task) queue.TaskResult {
+	return op.taskHandleHookRun(t)
+}
